@@ -246,36 +246,29 @@ def r3_recognition(ctx):
         if f is None:
             ctx.ob("R3", f"pandera/dtypes.py::{cname}", f"{cname}.check", False, "family has no check of its own: falls back to ==")
             continue
-        rets = [s for s in walk_no_nested(f.node) if isinstance(s, ast.Return) and s.value is not None]
         other = f.positional[1] if len(f.positional) > 1 else None
         probs = []
-        if len(rets) != 1:
-            probs.append(f"{len(rets)} return statements")
+        from ..util import boolean_verdict, canon_atom
+        bv = boolean_verdict(f.node)
+        if bv is None:
+            probs.append("the verdict is not a decision of boolean returns")
         else:
-            cj = _conj_set(rets[0].value)
-            has_inst = False
-            eqs = set()
-            for c in cj:
-                if isinstance(c, ast.Call) and callee_last(c) == "isinstance" and len(c.args) == 2 \
-                        and isinstance(c.args[0], ast.Name) and c.args[0].id == other and txt(c.args[1]) == cname:
-                    has_inst = True
-                elif isinstance(c, ast.Compare) and len(c.ops) == 1 and isinstance(c.ops[0], ast.Eq):
-                    l, r = dotted(c.left), dotted(c.comparators[0])
-                    if l and r:
-                        la, ra = l.split("."), r.split(".")
-                        if len(la) == 2 and len(ra) == 2 and la[1] == ra[1] and {la[0], ra[0]} == {"self", other}:
-                            eqs.add(la[1])
-                        else:
-                            probs.append(f"unexpected conjunct {txt(c)}")
-                    else:
-                        probs.append(f"unexpected conjunct {txt(c)}")
-                else:
-                    probs.append(f"unexpected conjunct {txt(c)}")
-            if not has_inst:
-                probs.append(f"missing isinstance({other}, {cname})")
-            for a in attrs:
-                if a not in eqs:
-                    probs.append(f"missing self.{a} == {other}.{a}")
+            names, table = bv
+            want = {f"isinstance({other}, {cname})"}
+            for a_ in attrs:
+                l, r = sorted((f"self.{a_}", f"{other}.{a_}"))
+                want.add(f"{l} == {r}")
+            dep = {names[i] for i in range(len(names)) if any(table[k] != table[k[:i] + (not k[i],) + k[i + 1:]] for k in table)}
+            for w in sorted(want - dep):
+                probs.append(f"the verdict does not depend on `{w}`")
+            for x in sorted(dep - want):
+                probs.append(f"unexpected conjunct {x}")
+            if not probs:
+                for k, v in table.items():
+                    allt = all(k[names.index(w)] for w in want)
+                    if v != allt:
+                        probs.append("the verdict is not the conjunction of the kind test and the attribute equalities")
+                        break
         ctx.ob("R3", f, f"{cname}.check conjuncts", not probs,
                "; ".join(probs) if probs else f"isinstance({cname}) and equal {attrs}")
     # engine-level DataType.check resolves the argument first
